@@ -83,6 +83,28 @@ fn one<const K: usize>(rng: &mut Rng, thorough: bool) -> String {
     let edges: Vec<usize> = t.dfs_edge_iter().flat_map(|e| vec![e.src, e.label, e.dest]).collect();
     out.push(' ');
     enc::nats(&mut out, &edges);
+    // the index-order iterators with values: edge_iter (source, value, label, target, value via `extract`), node_iter,
+    // terminals(), decisions(), and node_indices from the back
+    let ei: Vec<usize> = t
+        .edge_iter()
+        .flat_map(|e| {
+            let (s, sv, l, d, dv) = e.extract();
+            vec![s, *sv, l, d, *dv]
+        })
+        .collect();
+    out.push(' ');
+    enc::nats(&mut out, &ei);
+    let ni: Vec<usize> = t.node_iter().flat_map(|(i, nd)| vec![i, nd.value]).collect();
+    out.push(' ');
+    enc::nats(&mut out, &ni);
+    let ti: Vec<usize> = t.terminals().flat_map(|r| vec![r.idx, *r.value]).collect();
+    out.push(' ');
+    enc::nats(&mut out, &ti);
+    let di: Vec<usize> = t.decisions().flat_map(|r| vec![r.idx, *r.value]).collect();
+    out.push(' ');
+    enc::nats(&mut out, &di);
+    out.push(' ');
+    enc::nats(&mut out, &t.node_indices().rev().collect::<Vec<_>>());
     out
 }
 
